@@ -1,5 +1,6 @@
 import MemcVerif.Proofs.Policy
 import MemcVerif.Model.Server
+import MemcVerif.Proofs.PolicySim
 /-!
 # C20 — behaviour is the same under every runtime configuration
 
@@ -8,7 +9,9 @@ Two parts are logic and are proved here: (1) with eviction policy random and a l
 (`C20_policy_transparent_*`) — and `BinaryHandler`/`MemcStore` are generic in the `Cache`, so they cannot tell
 the two apart; (2) what `create_memcrs_server` builds depends on runtime type, thread count and port in nothing
 that a single connection can observe, and enforces the configured limits (`C20_limits_enforced`,
-`C20_config_independent`). That the two tokio runtimes, any worker-thread count and any port behave alike, and
+`C20_config_independent`). (1) is lifted through the generic code to whole connections
+(`C20_policy_transparent_request`, `C20_policy_transparent_stream`, `C20_limit_never_reached`): the bytes written
+are the same, for every byte stream, every segmentation and every clock. That the two tokio runtimes, any worker-thread count and any port behave alike, and
 that expiry follows real seconds, is observed by the `config` suite on the real binary (partial).
 -/
 namespace Memc
@@ -42,6 +45,62 @@ theorem C20_policy_transparent_delete (p : Policy) (k : Key) (cas : Nat) :
 
 theorem C20_policy_transparent_flush (p : Policy) (now ttl : Nat) : (p.flush now ttl).inner = p.inner.flush now ttl := rfl
 
+/-- `BinaryHandler` and `MemcStore` are generic in the `Cache`: for every request, every policy state whose
+    limit has not been reached so far (`bad = false`: nothing was evicted) and still is not after the request,
+    the response is the one the bare store gives and the stored content stays the same -/
+theorem C20_policy_transparent_request (p : Policy) (now : Nat) (req : Req) (htape : p.tape = [])
+    (hok : (handleRequest polOps p now req).1.bad = false) :
+    (handleRequest polOps p now req).1.inner = (handleRequest memOps p.inner now req).1 ∧
+    (handleRequest polOps p now req).2 = (handleRequest memOps p.inner now req).2 := by
+  obtain ⟨h1, h2⟩ := handle_sim policy_sim p p.inner now req ⟨rfl, htape⟩ hok
+  exact ⟨h1.1, h2⟩
+
+/-- **policy transparency for whole connections**: any sequence of arrivals (any bytes, valid or not, cut
+    anywhere, at any clock readings) on a connection in any state; if the limit is not reached by the end — the
+    policy evicted nothing — then the connection state, the bytes written for every arrival and the stored
+    content are those of the server without eviction policy -/
+theorem C20_policy_transparent_stream (limit : Nat) (c : Conn) (p : Policy) (fs : List (Nat × Bytes))
+    (htape : p.tape = []) (hok : (feedSeq polOps limit c p fs).2.1.bad = false) :
+    (feedSeq polOps limit c p fs).1 = (feedSeq memOps limit c p.inner fs).1 ∧
+    (feedSeq polOps limit c p fs).2.1.inner = (feedSeq memOps limit c p.inner fs).2.1 ∧
+    (feedSeq polOps limit c p fs).2.2 = (feedSeq memOps limit c p.inner fs).2.2 := by
+  obtain ⟨h1, h2, h3⟩ := feedSeq_sim policy_sim limit c p p.inner fs ⟨rfl, htape⟩ hok
+  exact ⟨h1, h2.1, h3⟩
+
+/-- a limit that cannot be reached (at least 2^64 - 1, the default `--memory-limit` is far below, but the
+    statement needs no workload assumption): nothing is ever evicted, so every connection behaves as without
+    policy — unconditionally -/
+theorem C20_limit_never_reached (limit : Nat) (c : Conn) (p : Policy) (fs : List (Nat × Bytes))
+    (hp : p.Unreachable) :
+    (feedSeq polOps limit c p fs).1 = (feedSeq memOps limit c p.inner fs).1 ∧
+    (feedSeq polOps limit c p fs).2.2 = (feedSeq memOps limit c p.inner fs).2.2 := by
+  have hend := feedSeq_pres policy_unreachable limit c p fs hp
+  obtain ⟨h1, _, h3⟩ := C20_policy_transparent_stream limit c p fs hp.2.1 hend.2.2
+  exact ⟨h1, h3⟩
+
+/-- with room for the record (`usage + len ≤ limit`) a store is not an eviction: the premise `bad = false` of
+    the two theorems above is what "limit not reached" means, store by store -/
+theorem C20_room_means_ok (p : Policy) (now : Nat) (k : Key) (r : Record)
+    (hroom : p.usage + r.len ≤ p.limit) (hnw : p.usage + r.len < U64) (htape : p.tape = []) (hb : p.bad = false) :
+    (p.set now k r).1.bad = false := by
+  obtain ⟨inner, usage, lim, tape, bad⟩ := p
+  simp only at hroom hnw htape hb
+  subst htape hb
+  have hadd : wadd usage r.len = usage + r.len := wadd_exact hnw
+  have hg : ¬ wadd usage r.len > lim := by omega
+  show (Policy.evictLoop r.len [] ⟨inner, wadd usage r.len, lim, [], false⟩ (wadd usage r.len)).bad = false
+  unfold Policy.evictLoop
+  simp only [hg, if_false]
+  rfl
+
+/-- the premises are met: a Set under a roomy limit evicts nothing; under a limit below the stored bytes the
+    same request with a non-empty store is flagged (the hypothesis is not always true) -/
+example : (Policy.init 100000).tape = [] ∧
+    (handleRequest polOps (Policy.init 100000) 3 (.set ⟨0x80, 1, 1, 8, 0, 0, 10, 7, 0⟩ 5 0 [97] [120])).1.bad = false := by decide
+example :
+    let p1 := (handleRequest polOps (Policy.init 30) 3 (.set ⟨0x80, 1, 1, 8, 0, 0, 10, 7, 0⟩ 5 0 [97] [120])).1
+    p1.bad = false ∧ (handleRequest polOps p1 3 (.set ⟨0x80, 1, 1, 8, 0, 0, 10, 7, 0⟩ 5 0 [98] [120])).1.bad = true := by decide
+
 /-- the configured item size limit (below 2^32) and connection limit are the ones enforced — the connection
     limit as a *total*, with one semaphore, in every runtime -/
 theorem C20_limits_enforced (c : Config) (h : c.itemLimit < 4294967296) :
@@ -64,3 +123,7 @@ end Memc
 #print axioms Memc.C20_policy_transparent_flush
 #print axioms Memc.C20_limits_enforced
 #print axioms Memc.C20_config_independent
+#print axioms Memc.C20_policy_transparent_request
+#print axioms Memc.C20_policy_transparent_stream
+#print axioms Memc.C20_limit_never_reached
+#print axioms Memc.C20_room_means_ok
